@@ -92,113 +92,61 @@ example :
 
 /-! ### read–write–read -/
 
-/-- The stability statement as first written: read-write-read is the identity (up to one
-    trailing newline per value) on whatever the reader produced, and a second cycle changes
-    nothing.  It is FALSE (two independent counterexamples below); `C08_stable_partial` is
-    the strongest variant that holds. -/
-def C08_stable_full : Prop :=
-  ∀ (bs : Bytes) (ps : List Paragraph), all bs = .ok ps →
-    (∀ p ∈ ps, ∀ k ∈ p.order, noLeadingEmptyLine (p.get k) = true) →
-    ∃ ps', all (writeAll ps) = .ok ps' ∧
-      List.Forall₂ (fun a b => sameUpToNewline a b = true) ps ps' ∧ writeAll ps' = writeAll ps
-
-/-- the two hypotheses `C08_stable_partial` adds -/
-def noHashKeys (ps : List Paragraph) : Prop := ∀ p ∈ ps, ∀ k ∈ p.order, k.head? ≠ some 35
-def firstLinesKept (ps : List Paragraph) : Prop :=
-  ∀ p ∈ ps, ∀ k ∈ p.order, wfFirstLine ((valueLines (p.get k)).headD []) = true
-
-instance (ps : List Paragraph) : Decidable (noHashKeys ps) := by
-  unfold noHashKeys; exact inferInstance
-instance (ps : List Paragraph) : Decidable (firstLinesKept ps) := by
-  unfold firstLinesKept; exact inferInstance
-
-/-- Finding `hash-key`: the reader strips white space in front of a field name, so the
-    line "\r#foo: bar" (the line does not start with '#') gives the field "#foo"; the writer
-    puts it at the start of a line, where the reader takes it for a comment: the
-    paragraph is lost.  All values here are single trimmed lines. -/
-theorem C08_stable_needs_noHashKeys :
-    ∃ bs ps, all bs = .ok ps ∧
-      (∀ p ∈ ps, ∀ k ∈ p.order, noLeadingEmptyLine (p.get k) = true) ∧ firstLinesKept ps ∧
-      ¬ ∃ ps', all (writeAll ps) = .ok ps' ∧
-        List.Forall₂ (fun a b => sameUpToNewline a b = true) ps ps' ∧
-        writeAll ps' = writeAll ps := by
-  refine ⟨Bytes.ofString "\r#foo: bar\n",
-    [⟨[Bytes.ofString "#foo"], [(Bytes.ofString "#foo", Bytes.ofString "bar")]⟩],
-    by decide +kernel, by decide +kernel, by decide +kernel, ?_⟩
-  rintro ⟨ps', h1, h2, _⟩
-  have e : all (writeAll
-      [⟨[Bytes.ofString "#foo"], [(Bytes.ofString "#foo", Bytes.ofString "bar")]⟩]) = .ok [] := by
-    decide +kernel
-  rw [e] at h1
-  injection h1 with h1
-  subst h1
-  cases h2
-
-/-- Finding `first-line-space`: when a field's own line is empty, the first continuation
-    line becomes the first line of the value with only its trailing white space removed
-    and one leading blank or tab dropped; if it then starts with another white-space rune
-    (here '\r'; also '\v', '\f', U+00A0, …) the writer puts it on the field's own line,
-    where the reader trims it away: "\rx" comes back as "x".  No '#' key is involved. -/
-theorem C08_stable_needs_firstLinesKept :
-    ∃ bs ps, all bs = .ok ps ∧
-      (∀ p ∈ ps, ∀ k ∈ p.order, noLeadingEmptyLine (p.get k) = true) ∧ noHashKeys ps ∧
-      ¬ ∃ ps', all (writeAll ps) = .ok ps' ∧
-        List.Forall₂ (fun a b => sameUpToNewline a b = true) ps ps' ∧
-        writeAll ps' = writeAll ps := by
-  refine ⟨Bytes.ofString "a:\n \rx\n", [⟨[[97]], [([97], Bytes.ofString "\rx\n")]⟩],
-    by decide +kernel, by decide +kernel, by decide +kernel, ?_⟩
-  rintro ⟨ps', h1, h2, _⟩
-  have e : all (writeAll [⟨[[97]], [([97], Bytes.ofString "\rx\n")]⟩]) =
-      .ok [⟨[[97]], [([97], [120])]⟩] := by
-    decide +kernel
-  rw [e] at h1
-  injection h1 with h1
-  subst h1
-  cases h2 with
-  | cons hr _ => revert hr; decide +kernel
-
-theorem C08_stable_full_false : ¬ C08_stable_full := by
-  intro h
-  obtain ⟨bs, ps, h1, h2, _, h4⟩ := C08_stable_needs_noHashKeys
-  exact h4 (h bs ps h1 h2)
-
 /-- read-write-read is the identity (up to one trailing newline per value) on whatever the
-    reader produced, and a second cycle changes nothing, not even a byte — provided no
-    field name starts with '#' and every value's first line either starts with a blank or
-    tab or with no white-space rune at all (`wfFirstLine`). -/
-theorem C08_stable_partial (bs : Bytes) (ps : List Paragraph) (h : all bs = .ok ps)
-    (hl : ∀ p ∈ ps, ∀ k ∈ p.order, noLeadingEmptyLine (p.get k) = true)
-    (hh : noHashKeys ps) (hf : firstLinesKept ps) :
+    reader produced, and a second cycle changes nothing, not even a byte -/
+theorem C08_stable (bs : Bytes) (ps : List Paragraph) (h : all bs = .ok ps)
+    (hl : ∀ p ∈ ps, ∀ k ∈ p.order, noLeadingEmptyLine (p.get k) = true) :
     ∃ ps', all (writeAll ps) = .ok ps' ∧
       List.Forall₂ (fun a b => sameUpToNewline a b = true) ps ps' ∧ writeAll ps' = writeAll ps :=
-  ⟨ps.map Lemmas.Deb822Write.reread, Lemmas.Deb822Write.stable_of_all h hl hh hf⟩
+  ⟨ps.map Lemmas.Deb822Write.reread, Lemmas.Deb822Write.stable_of_all h hl⟩
 
 /-- Two paragraphs with a comment, CRLF, an empty line inside a value, a tab-marked
     continuation with trailing blanks, an empty field name, a field name with an inner
-    blank, a value whose first line starts with blanks, a repeated name across paragraphs. -/
+    blank, a value whose first line starts with blanks, one whose first line starts with a
+    carriage return, a repeated name across paragraphs. -/
 example :
     let pkg := Bytes.ofString "Package"
     let desc := Bytes.ofString "Description"
     let ps : List Paragraph :=
       [⟨[pkg, desc], [(pkg, Bytes.ofString "hello"),
           (desc, Bytes.ofString "short\n\n indented\nlast\n")]⟩,
-       ⟨[[], Bytes.ofString "a b", [88], pkg],
+       ⟨[[], Bytes.ofString "a b", [88], [89], pkg],
         [([], Bytes.ofString "empty key"), (Bytes.ofString "a b", Bytes.ofString "inner blank"),
-          ([88], Bytes.ofString "  lead\n"), (pkg, Bytes.ofString "again")]⟩]
+          ([88], Bytes.ofString "  lead\n"), ([89], Bytes.ofString "\rx\n"),
+          (pkg, Bytes.ofString "again")]⟩]
     all (Bytes.ofString ("# c\nPackage:  hello \r\nDescription: short\n .\n\t indented \n last\n\n\n" ++
-      ": empty key\na b : inner blank\nX:\n   lead\nPackage: again\n")) = .ok ps ∧
-    (∀ p ∈ ps, ∀ k ∈ p.order, noLeadingEmptyLine (p.get k) = true) ∧
-    noHashKeys ps ∧ firstLinesKept ps := by
+      ": empty key\na b : inner blank\nX:\n   lead\nY:\n \rx\nPackage: again\n")) = .ok ps ∧
+    (∀ p ∈ ps, ∀ k ∈ p.order, noLeadingEmptyLine (p.get k) = true) := by
+  decide +kernel
+
+/-- The two findings of the first proof attempt (`hash-key`, `first-line-space`), after the
+    fixes: a field name that would be written as a comment is rejected by the reader; a
+    first line starting with any white-space rune is written on a continuation line and
+    comes back unchanged. -/
+example :
+    all (Bytes.ofString "\r#foo: bar\n") = .error .err ∧
+    writeAll [⟨[[97]], [([97], Bytes.ofString "\rx\n")]⟩] = Bytes.ofString "a: \n \rx\n" ∧
+    all (Bytes.ofString "a: \n \rx\n") = .ok [⟨[[97]], [([97], Bytes.ofString "\rx\n")]⟩] := by
+  decide +kernel
+
+/-- The remaining hypothesis cannot be dropped (finding `leading-empty-line`): the reader
+    returns "\nx\n" for an empty field line followed by " ." and " x"; written back, the
+    empty first line is taken for the empty field line and only "x\n" returns. -/
+example :
+    let ps : List Paragraph := [⟨[[97]], [([97], Bytes.ofString "\nx\n")]⟩]
+    all (Bytes.ofString "a:\n .\n x\n") = .ok ps ∧
+    noLeadingEmptyLine (Bytes.ofString "\nx\n") = false ∧
+    all (writeAll ps) = .ok [⟨[[97]], [([97], Bytes.ofString "x\n")]⟩] := by
   decide +kernel
 
 /-- What every paragraph returned by the reader looks like (the invariant behind
-    `C08_stable_partial`): at least one field, distinct names, each name trimmed and free of
-    ':' and newline, each value a trimmed newline-free first line `t` alone, or `t` (if not
-    empty) and right-trimmed newline-free continuation lines other than ".", each followed
-    by a newline. -/
+    `C08_stable`): at least one field, distinct names, each name trimmed, free of ':' and
+    newline and not starting with '#', each value a trimmed newline-free first line `t`
+    alone, or `t` (if not empty) and right-trimmed newline-free continuation lines other
+    than ".", each followed by a newline. -/
 theorem C08_reader_output (bs : Bytes) (ps : List Paragraph) (h : all bs = .ok ps) :
     ∀ p ∈ ps, p.order ≠ [] ∧ p.order.Nodup ∧ ∀ k ∈ p.order,
-      (Str.trimSpace k = k ∧ 58 ∉ k ∧ 10 ∉ k) ∧
+      (Str.trimSpace k = k ∧ 58 ∉ k ∧ 10 ∉ k ∧ k.head? ≠ some 35) ∧
       ∃ (t : Bytes) (ls : List Bytes), p.get k = (if ls.isEmpty then t else
           (if t.isEmpty then [] else t ++ [10]) ++ (ls.map (· ++ [10])).flatten) ∧
         Str.trimSpace t = t ∧ 10 ∉ t ∧
@@ -206,8 +154,8 @@ theorem C08_reader_output (bs : Bytes) (ps : List Paragraph) (h : all bs = .ok p
   intro p hp
   obtain ⟨h1, h2, h3⟩ := Lemmas.Deb822Write.all_inv h p hp
   refine ⟨h1, h2, fun k hk => ?_⟩
-  obtain ⟨⟨hk1, hk2, hk3⟩, t, ls, hv, ht, ht', hls⟩ := h3 k hk
-  exact ⟨⟨Lemmas.Deb822WriteStr.trimSpace_of_trimmed hk1, hk2, hk3⟩, t, ls, hv,
+  obtain ⟨⟨hk1, hk2, hk3, hk4⟩, t, ls, hv, ht, ht', hls⟩ := h3 k hk
+  exact ⟨⟨Lemmas.Deb822WriteStr.trimSpace_of_trimmed hk1, hk2, hk3, hk4⟩, t, ls, hv,
     Lemmas.Deb822WriteStr.trimSpace_of_trimmed ht, ht', hls⟩
 
 end GoDebian.Props.C08
